@@ -19,6 +19,7 @@ type blsPoint interface {
 	SetBytes([]byte) error
 	Bytes() []byte
 	BytesCompressed() []byte
+	IsIdentity() bool
 }
 
 type blsFmt struct {
@@ -29,6 +30,83 @@ type blsFmt struct {
 	// library-produced point: k·G or a hashed point
 	libPoint func(t *rapid.T) blsPoint
 	isEqual  func(a, b blsPoint) bool
+	// used returns a receiver that already holds something (see blsUsedStates)
+	used func(state int, b []byte) blsPoint
+}
+
+var blsUsedStates = []string{"generator", "identity", "sum(unnormalised)", "k·G", "after-rejected-decode"}
+
+func usedG1(state int, b []byte) blsPoint {
+	p := bls.G1Generator()
+	switch state {
+	case 1:
+		p.SetIdentity()
+	case 2:
+		q := bls.G1Generator()
+		q.Double()
+		p.Add(p, q)
+	case 3:
+		k := new(bls.Scalar)
+		k.SetUint64(vlib.Hash64(b) | 1)
+		p.ScalarMult(k, p)
+	case 4:
+		_ = p.SetBytes(garbage(bls.G1Size))
+	}
+	return p
+}
+
+func usedG2(state int, b []byte) blsPoint {
+	p := bls.G2Generator()
+	switch state {
+	case 1:
+		p.SetIdentity()
+	case 2:
+		q := bls.G2Generator()
+		q.Double()
+		p.Add(p, q)
+	case 3:
+		k := new(bls.Scalar)
+		k.SetUint64(vlib.Hash64(b) | 1)
+		p.ScalarMult(k, p)
+	case 4:
+		_ = p.SetBytes(garbage(bls.G2Size))
+	}
+	return p
+}
+
+// usedBLS decodes b into a fresh and into a used receiver and compares the observations.
+func usedBLS(t vlib.TB, f blsFmt, b []byte) {
+	sub := f.name + ".SetBytes"
+	var freshVal blsPoint
+	look := func(p blsPoint) recvObs {
+		return observe(func(o *recvObs) {
+			o.accepted = p.SetBytes(b) == nil
+			if !o.accepted {
+				return
+			}
+			o.views = [][]byte{p.Bytes(), p.BytesCompressed()}
+			o.flags = []bool{f.inG(p), p.IsIdentity()}
+			if freshVal != nil {
+				o.flags = append(o.flags, f.isEqual(p, freshVal), f.isEqual(freshVal, p))
+			} else {
+				o.flags = append(o.flags, true, true)
+			}
+		})
+	}
+	fp := f.new()
+	fresh := look(fp)
+	if fresh.accepted && fresh.pan == "" {
+		freshVal = fp
+	}
+	st := recvState(b, len(blsUsedStates))
+	up := f.used(st, b)
+	var before, after [][]byte
+	vlib.Catch(func() { before = [][]byte{up.Bytes()} })
+	used := look(up)
+	if !used.accepted {
+		vlib.Catch(func() { after = [][]byte{up.Bytes()} })
+	}
+	judgeUsed(t, f.name+".SetBytes", sub, blsUsedStates[st], b, fresh, used, before, after)
 }
 
 func drawScalar(t *rapid.T) *bls.Scalar {
@@ -56,6 +134,7 @@ var blsFmts = []blsFmt{
 			return p
 		},
 		isEqual: func(a, b blsPoint) bool { return a.(*bls.G1).IsEqual(b.(*bls.G1)) },
+		used:    usedG1,
 	},
 	{
 		g: 2, name: "bls12381.G2",
@@ -71,6 +150,7 @@ var blsFmts = []blsFmt{
 			return p
 		},
 		isEqual: func(a, b blsPoint) bool { return a.(*bls.G2).IsEqual(b.(*bls.G2)) },
+		used:    usedG2,
 	},
 }
 
@@ -340,6 +420,7 @@ func genBLS(t *rapid.T, f blsFmt, kind string) (b []byte, valid bool, orig blsPo
 func checkBLS(t vlib.TB, f blsFmt, b []byte, kind string, valid bool, orig blsPoint) {
 	sub := f.name + ".SetBytes"
 	vlib.Eval(sub)
+	usedBLS(t, f, b)
 	p := f.new()
 	var err error
 	if pn, st := vlib.Catch(func() { err = p.SetBytes(b) }); pn != nil {
@@ -399,6 +480,10 @@ func checkBLS(t vlib.TB, f blsFmt, b []byte, kind string, valid bool, orig blsPo
 		vlib.Report(t, "C09/soundness/"+f.name+".SetBytes/accepted-not-in-group", fmt.Sprintf("kind=%s input=%x", kind, b))
 		return
 	}
+	if p.IsIdentity() != ref.P.Inf {
+		vlib.Report(t, "C09/soundness/"+f.name+".SetBytes/decoded-value-differs", fmt.Sprintf("kind=%s input=%x IsIdentity=%v", kind, b, p.IsIdentity()))
+		return
+	}
 	if valid && orig != nil && !(f.isEqual(p, orig) && f.isEqual(orig, p)) {
 		vlib.Report(t, "C09/completeness/"+f.name+".SetBytes/not-equal-after-roundtrip", fmt.Sprintf("input=%x", b))
 		return
@@ -432,9 +517,61 @@ func TestC09BLSPoints(t *testing.T) {
 // ---------------------------------------------------------------------------
 // sign/bls public keys (UnmarshalBinary + Validate) and signatures (via Verify)
 
+// usedBLSKey decodes b into a fresh PublicKey and into one that already holds another key (or the
+// remains of a rejected decode) and compares verdict, Validate, MarshalBinary and Equal.
+func usedBLSKey[K sbls.KeyGroup](t vlib.TB, sub string, b []byte) {
+	var freshVal *sbls.PublicKey[K]
+	look := func(pk *sbls.PublicKey[K]) recvObs {
+		return observe(func(o *recvObs) {
+			o.accepted = pk.UnmarshalBinary(b) == nil
+			if !o.accepted {
+				return
+			}
+			out, _ := pk.MarshalBinary()
+			o.views = [][]byte{out}
+			o.flags = []bool{pk.Validate()}
+			if freshVal != nil {
+				o.flags = append(o.flags, pk.Equal(freshVal), freshVal.Equal(pk))
+			} else {
+				o.flags = append(o.flags, true, true)
+			}
+		})
+	}
+	fp := new(sbls.PublicKey[K])
+	fresh := look(fp)
+	if fresh.accepted && fresh.pan == "" {
+		freshVal = fp
+	}
+	states := []string{"other-key", "after-rejected-decode", "same-input-twice"}
+	st := recvState(b, len(states))
+	up := new(sbls.PublicKey[K])
+	switch st {
+	case 0:
+		ikm := make([]byte, 32)
+		vlib.ExpandInto(ikm, vlib.Hash64(b))
+		sk, err := sbls.KeyGen[K](ikm, nil, nil)
+		if err != nil {
+			return
+		}
+		*up = *sk.PublicKey()
+	case 1:
+		_ = up.UnmarshalBinary(garbage(96))
+	case 2:
+		_ = up.UnmarshalBinary(b)
+	}
+	var before, after [][]byte
+	vlib.Catch(func() { o, _ := up.MarshalBinary(); before = [][]byte{o} })
+	used := look(up)
+	if !used.accepted {
+		vlib.Catch(func() { o, _ := up.MarshalBinary(); after = [][]byte{o} })
+	}
+	judgeUsed(t, sub+".UnmarshalBinary", sub, states[st], b, fresh, used, before, after)
+}
+
 func checkBLSKey[K sbls.KeyGroup](t vlib.TB, f blsFmt, b []byte, kind string, valid bool) {
 	sub := "bls.PublicKey[" + f.name[9:] + "]"
 	vlib.Eval(sub)
+	usedBLSKey[K](t, sub, b)
 	pk := new(sbls.PublicKey[K])
 	var err error
 	var okv bool
